@@ -206,5 +206,6 @@ func Bodies(seed int64) []Body {
 		demuxDataBody("demux-data:split-section-headers", checks.SplitHeaderStream(seed)),
 		shortAutoBody("demux-short-inputs-auto-detected", ss[0].Bytes),
 		demuxDataBody("demux-data:pool-capacity-boundary", checks.PoolBoundaryStream(seed)),
+		demuxPacketBody("demux-packets:pid-classes", checks.PIDClassesStream(seed).Bytes),
 	}
 }
